@@ -71,10 +71,21 @@ func init() {
 					continue
 				}
 				t := fmt.Sprintf("Unique body of page %d in doc %d", p+1, di)
-				pages = append(pages, []pdfLine{{72, 700, 12, t, 0}, {72, 650, 12, fmt.Sprintf("second line p%d", p+1), 0}})
+				ls := []pdfLine{{72, 700, 12, t, 0}, {72, 650, 12, fmt.Sprintf("second line p%d", p+1), 0}}
+				// a running title and page numbers on every page but the first (a cover)
+				if di%2 == 0 && np >= 3 && p > 0 {
+					ls = append([]pdfLine{{72, 765, 11, fmt.Sprintf("Running Title of Document %d", di), 0}}, ls...)
+					ls = append(ls, pdfLine{300, 30, 10, fmt.Sprintf("Page %d", p+1), 0})
+				}
+				pages = append(pages, ls)
 				texts = append(texts, t)
 			}
 			path := tmpFile(r, ".pdf", mkPDFLines(pages, 612, 792))
+			// the same with header / footer exclusion: what exclusion does to a page does not depend on the selection
+			singleX := make([]string, np)
+			for p := 1; p <= np; p++ {
+				singleX[p-1], _, _ = tabula.Open(path).Pages(p).ExcludeHeadersAndFooters().Text()
+			}
 			// per-page texts through single-page selections
 			single := make([]string, np)
 			for p := 1; p <= np; p++ {
@@ -180,6 +191,14 @@ func init() {
 					}
 				}
 				r.Check(terr == nil && txt == strings.Join(parts, "\n\n"), "text-is-join", fmt.Sprintf("Text() of selection %v is not the join of the single-page texts", want), cv)
+				xtxt, _, xerr := c10Apply(tabula.Open(path), bs).ExcludeHeadersAndFooters().Text()
+				var xparts []string
+				for _, p := range want {
+					if singleX[p-1] != "" {
+						xparts = append(xparts, singleX[p-1])
+					}
+				}
+				r.Check(xerr == nil && xtxt == strings.Join(xparts, "\n\n"), "text-is-join:exclude-headers", fmt.Sprintf("with header/footer exclusion, Text() of selection %v is %q, the single pages give %q", want, xtxt, strings.Join(xparts, "\n\n")), cv)
 				var tv VL = VL{}
 				for _, p := range want {
 					tv = append(tv, Bs(single[p-1]))
